@@ -468,11 +468,20 @@ fn main() {
             let l = (t - 1) * e as u64 + if matches!(fec, Fec::Raptor) { e as u64 } else { rng.range(1, e as u64) };
             let data = rng.bytes(l as usize);
             // the FDT travels with a plain No-Code OTI; the object overrides it
-            let spec = SenderSpec::new(OtiSpec::new(Fec::NoCode, 1024, 64, 0));
+            let mut spec = SenderSpec::new(OtiSpec::new(Fec::NoCode, 1024, 64, 0));
+            // the sender slices a stream block by block, several blocks per call when blocks are interleaved: the partition
+            // it realises must not depend on how the bytes are supplied
+            spec.interleave = rng.range(1, 4) as u8;
             let mut obj = ObjSpec::new(data.clone(), "file:///c07.bin");
             obj.oti = Some(oti.clone());
+            obj.source = match rng.below(6) {
+                0 | 1 | 2 => vh::session::SourceSpec::Buffer,
+                3 => vh::session::SourceSpec::Cursor,
+                4 => vh::session::SourceSpec::Chunked(vec![*rng.pick(&[1usize, 7, 4096])]),
+                _ => vh::session::SourceSpec::File,
+            };
             let mut cr = CaseResult::default();
-            let wit = json!({"oti": oti.json(), "L": l});
+            let wit = json!({"oti": oti.json(), "L": l, "interleave": spec.interleave, "source": format!("{:?}", obj.source)});
             let r = util::guarded(|| {
                 let em = emit(&spec, &[obj.clone()], &EmitOpts::default())?;
                 let rx = receive_stream(&em, &RxOpts::default());
